@@ -299,7 +299,39 @@ def string_push_str(ex, m, a, fr, dest):
 @model(r'(?:core|std|alloc)::str::<impl str>::as_bytes|(?:std::string::)?String::as_bytes|(?:std::string::)?String::into_bytes')
 def str_as_bytes(ex, m, a, fr, dest):
     s = deref(a[0])
+    cs = str_simplify(s) if not isinstance(s, str) else s
+    if isinstance(cs, str):
+        # every character known: an ordinary byte slice (iteration, sub-slicing, comparison all apply)
+        data = list(cs.encode('utf-8'))
+        return Slice(data, 0, len(data))
     return StrBytes(as_symstr(s))
+
+
+def concrete_bytes(v):
+    """bytes of a byte-slice value whose elements are all concrete, else None."""
+    if isinstance(v, BytesLit):
+        return bytes(v.data)
+    if isinstance(v, Slice) or isinstance(v, VecV):
+        items = v.items[v.lo:v.hi] if isinstance(v, Slice) else v.items
+        if all(isinstance(x, int) and not isinstance(x, bool) and 0 <= x < 256 for x in items):
+            return bytes(items)
+    if isinstance(v, StrBytes):
+        c = v.s.concrete()
+        if c is not None:
+            return c.encode('utf-8')
+    return None
+
+
+def bytes_as_symstr(v):
+    if isinstance(v, StrBytes):
+        return v.s
+    c = concrete_bytes(v)
+    if c is not None:
+        try:
+            return SymStr.lit(c.decode('utf-8'))
+        except UnicodeDecodeError:
+            return None
+    return None
 
 
 class StrBytes(Model):
@@ -910,6 +942,17 @@ def vec_truncate(ex, m, a, fr, dest):
     n = ex.concretize(a[1], 0, len(v.items) + 1, 'truncate')
     del v.items[n:]
     return UNIT
+
+
+@model(r'(?:std::vec::)?Vec::<.*>::split_off')
+def vec_split_off(ex, m, a, fr, dest):
+    v = vec_of(a[0])
+    n = ex.concretize(a[1], 0, len(v.items) + 1, 'split_off')
+    if n > len(v.items):
+        raise Panic('`at` split index (is %d) should be <= len (is %d)' % (n, len(v.items)), fr.name if fr else '')
+    tail = v.items[n:]
+    del v.items[n:]
+    return VecV(tail, 'Vec')
 
 
 @model(r'<(?:std::vec::)?Vec<.*> as (?:std::ops::)?Deref(?:Mut)?>::deref(?:_mut)?|(?:std::vec::)?Vec::<.*>::as_slice|(?:std::vec::)?Vec::<.*>::as_mut_slice|<(?:std::vec::)?Vec<.*> as AsRef<\[.*\]>>::as_ref')
@@ -1876,9 +1919,14 @@ def str_strip_prefix_str(ex, m, a, fr, dest):
 @model(r'<\[u8\] as Ord>::cmp|<&\[u8\] as Ord>::cmp|<\[u8\] as PartialOrd>::partial_cmp')
 def bytes_cmp(ex, m, a, fr, dest):
     x, y = deref(a[0]), deref(a[1])
-    if isinstance(x, StrBytes) and isinstance(y, StrBytes):
+    cx, cy = concrete_bytes(x), concrete_bytes(y)
+    if cx is not None and cy is not None:
+        o = ordering(-1 if cx < cy else 1 if cx > cy else 0)
+        return some(o) if 'partial_cmp' in m.group(0) else o
+    sx, sy = bytes_as_symstr(x), bytes_as_symstr(y)
+    if sx is not None and sy is not None:
         # byte order of UTF-8 equals code point order
-        o = ordering(str_cmp(x.s, y.s))
+        o = ordering(str_cmp(sx, sy))
         return some(o) if 'partial_cmp' in m.group(0) else o
     raise Unsupported('byte slice comparison of %r' % (x,))
 
@@ -1886,9 +1934,11 @@ def bytes_cmp(ex, m, a, fr, dest):
 @model(r'<\[u8\] as PartialEq>::(eq|ne)|<&\[u8\] as PartialEq>::(eq|ne)')
 def bytes_eq(ex, m, a, fr, dest):
     x, y = deref(a[0]), deref(a[1])
-    if isinstance(x, StrBytes) and isinstance(y, StrBytes):
-        r = str_eq(x.s, y.s)
-        return r if (m.group(1) or m.group(2)) == 'eq' else b_not(r)
+    if isinstance(x, StrBytes) or isinstance(y, StrBytes):
+        sx, sy = bytes_as_symstr(x), bytes_as_symstr(y)
+        if sx is not None and sy is not None:
+            r = str_eq(sx, sy)
+            return r if (m.group(1) or m.group(2)) == 'eq' else b_not(r)
     return NotImplemented
 
 
@@ -3004,8 +3054,9 @@ def bytes_starts_with(ex, m, a, fr, dest):
     def as_s(v):
         if isinstance(v, StrBytes):
             return v.s
-        if isinstance(v, BytesLit):
-            return SymStr.lit(bytes(v.data).decode('utf-8', 'replace'))
+        c = concrete_bytes(v)
+        if c is not None:
+            return SymStr.lit(c.decode('utf-8', 'replace'))
         raise Unsupported('byte slice %r' % (v,))
     sx, sy = as_s(x), as_s(y)
     if m.group(1) == 'starts_with':
